@@ -49,3 +49,26 @@ CHECKS = {
    note=NOTE_STD,
    technique='Coq proof of refinement model->reference (case analysis over modes/opcodes/modifiers) + per-run differential correspondence of the extracted model'),
 }
+
+CHECKS.update({
+ 'C06': dict(
+   text=('Theorems about the literal model of compiler.compile / assembleLine (model/Compile.v), for ALL lists of source lines and metadata (so independent of what lexer, parser and expression evaluator produce): '
+         'an accepted warrior has every field below the core size, an entry point inside the code (0 for empty code), at most the configured length, and under ICWS\'88 only instructions of the independently written '
+         'legal-\'88 table with the implied modifier; the load.go \'88 table agrees with that table on all opcode/mode combinations. Every run renders generated abstract programs (legal, illegal, over-length, '
+         'out-of-range, \'94-only forms under \'88) through the extracted renderer, assembles them with gmars and with the extracted model, and checks acceptance and result against the extracted reference meaning.'),
+   design_ref='DESIGN.md 5 C06', note=NOTE_STD,
+   technique='Coq proof over all line lists (case analysis of assembleLine + finite table sweep lifted by lemma) + per-run two-stage differential correspondence'),
+ 'C10': dict(
+   text=('Theorems about the literal model of ParseLoadFile (model/Load.v), for every input text: the reader always answers (error or warrior); an accepted warrior has every field below the core size, an entry '
+         'point inside the code, and under \'88 only legal \'88 instructions with the implied modifier; the number of instructions returned equals the number of instruction lines of the text (no line is silently dropped). '
+         'Every run feeds generated load files (canonical, mutated, truncated, wrong rule set, bare ORG, junk) to gmars and the extracted model and checks the extracted acceptance monitor.'),
+   design_ref='DESIGN.md 5 C10', note=NOTE_STD,
+   technique='Coq proof by induction over the lines of the text + per-run differential correspondence and extracted acceptance monitor'),
+ 'C17': dict(
+   text=('Theorems about the literal model of cmd/gmars (model/Cli.v) with math/rand as a parameter (the list of positions drawn): flags -s -p -c -l -8 give exactly the documented configuration and a preset the documented '
+         'one; for every list of positions the tally counts each round exactly once as a win, a tie for both, or nothing; one round equals the reference battle (spec/Mars.v) at that placement; with -F the two printed lines '
+         'are the reference outcome times the number of rounds. Flag parsing by package flag, file reading and the random source are modelled, not proved. Every run builds the gmars binary from /repo, runs it on generated '
+         'command lines and warriors, and compares exit status and output with the extracted model and the extracted reference.'),
+   design_ref='DESIGN.md 5 C17', note=NOTE_STD,
+   technique='Coq proof (configuration table, tally invariant by induction over rounds, refinement of a round to the reference battle through C02) + per-run correspondence against the built binary'),
+})
